@@ -64,8 +64,12 @@ func (rv *respValue) serializeBlobErrorString(sb *strings.Builder, data respBlob
 	sb.WriteString(fmt.Sprintf("!%d\r\n%s\r\n", len(data), data))
 }
 
+// simple strings and errors are line oriented: a CR or LF inside the text (e.g. client bytes echoed
+// in an error message) would end the reply early and start a bogus one
+var lineBreakReplacer = strings.NewReplacer("\r", " ", "\n", " ")
+
 func (rv *respValue) serializeSimpleString(sb *strings.Builder, data string) {
-	sb.WriteString(fmt.Sprintf("%s\r\n", data))
+	sb.WriteString(fmt.Sprintf("%s\r\n", lineBreakReplacer.Replace(data)))
 }
 
 func (rv *respValue) serializeInt(sb *strings.Builder, data respInt) {
